@@ -124,6 +124,20 @@ def main():
             args = [dec(a) for a in call['args']]
             before = json.dumps([enc(a) for a in args], sort_keys=True)
             kwargs = {k: dec(a) for k, a in call.get('kwargs', {}).items()}
+            if call.get('draws') is not None:
+                # fixed outcomes of the random generator: the k-th call of np.random.exponential returns the k-th array
+                queue = [list(d) for d in call['draws']]
+                state = {'k': 0}
+
+                def fixed_exponential(scale=1.0, size=None):
+                    k = state['k']
+                    state['k'] += 1
+                    if k > len(queue) + 8:
+                        raise RuntimeError("replay: more calls of np.random.exponential than the recorded execution made")
+                    rec = queue[k] if k < len(queue) else []
+                    n = int(size) if size is not None else 1
+                    return np.array([rec[i] if i < len(rec) else 0.0 for i in range(n)], dtype=float)
+                np.random.exponential = fixed_exponential
             r = f(*args, **kwargs)
             after = json.dumps([enc(a) for a in args], sort_keys=True)
             res = {'ok': True, 'result': enc(r), 'args_unchanged': before == after}
